@@ -249,6 +249,12 @@ def main(tier, seed):
             cases.append({"state": sname, "tree": tree, "op": op})
         for op in pl:
             cases.append({"state": sname, "tree": tree, "op": op, "prep_pl": True})
+    # the root named as <link>/../<folder> (the OS follows the link first; the textually collapsed path is another, existing folder)
+    for sname in ("no-history", "flat", "nested"):
+        if sname in S:
+            for op in command_forms(S[sname])[0]:
+                if op[1].get("root") is not None and "file" not in op[1]:
+                    cases.append({"state": sname, "tree": S[sname], "op": [op[0], dict(op[1], spell="dotdot")]})
     res = eng.pmap(work, cases)
     for case, (vs, ex) in zip(cases, res):
         eng.add_viols(vs)
